@@ -78,7 +78,9 @@ func New(logger zerolog.Logger, proxies ...string) func(http.Handler) http.Handl
 
 	return func(next http.Handler) http.Handler {
 		return http.HandlerFunc(func(rw http.ResponseWriter, req *http.Request) {
-			if !trustedProxies.Contains(net.ParseIP(httpx.IPFromHostPort(req.RemoteAddr))) {
+			// a peer without a parsable address (unix domain socket, IPv6 zone) is listed nowhere
+			peer := net.ParseIP(httpx.IPFromHostPort(req.RemoteAddr))
+			if peer == nil || !trustedProxies.Contains(peer) {
 				for _, name := range untrustedHeader {
 					req.Header.Del(name)
 				}
